@@ -91,7 +91,7 @@ def fit_record(Xi, Yi, a, k, space, solver, route, y1d=False, Xn=None, pre=None,
                         "pred_ndim": int(np.ndim(Yp)), "pxy_ndim": int(np.ndim(m_.pxy_)), "pty_ndim": int(np.ndim(m_.pty_)),
                         "score": sq(m_.score(X, Yarg)) if route != "pre" else 0,
                         "Xn": [], "Tn": [], "Ypn": [], "YpTn": [], "Yn": [], "Xrn": [], "scoren": 0, "lamfull": [], "cmpY": True,
-                        "comp": [], "That": [], "pcaV": [], "lrW": []})
+                        "comp": [], "That": [], "pcaV": [], "lrW": [], "kform": []})
             # the documented third argument of score: latent coordinates supplied by the caller (here: the last component
             # switched off); the losses are then those of exactly these coordinates
             rec.update({"XrS": [], "YpS": [], "scoreS": 0})
@@ -123,4 +123,4 @@ def fit_record(Xi, Yi, a, k, space, solver, route, y1d=False, Xn=None, pre=None,
 
 
 def public(rec):
-    return {k: v for k, v in rec.items() if not k.startswith("_") and k != "msg"}
+    return {k: v for k, v in rec.items() if not k.startswith("_") and k not in ("msg", "kform_msg")}
